@@ -14,6 +14,7 @@ pub fn structs(module: &naga::Module, options: WriteOptions) -> TokenStream {
 
     let mut global_variable_types = HashSet::new();
     for g in module.global_variables.iter() {
+        verif_point!("structs:global");
         add_types_recursive(&mut global_variable_types, module, g.1.ty);
     }
 
@@ -65,6 +66,7 @@ fn rust_struct(
     options: WriteOptions,
     global_variable_types: &HashSet<Handle<Type>>,
 ) -> TokenStream {
+    verif_point!("rust_struct");
     let struct_name = Ident::new(t.name.as_ref().unwrap(), Span::call_site());
 
     // Skip builtins since they don't require user specified data.
@@ -182,6 +184,7 @@ fn add_types_recursive(
     module: &naga::Module,
     ty: Handle<Type>,
 ) {
+    verif_point!("add_types_recursive");
     types.insert(ty);
 
     match &module.types[ty].inner {
